@@ -160,7 +160,9 @@ def vec_sum(ex, st, v):
     for (t2, v2, p2) in cands:
         k = fresh(I, "k")
         try:
-            with binding(k):
+            # (the earlier vector's elements are evaluated again here: its own binders must be in force, so that anything
+            # defined on the way -- a nested sum -- depends on them explicitly)
+            with binding(*([x for x in p2 if not any(x.eq(y) for y in BINDERS)] + [k])):
                 same = z3.And(to_z3(v2.n) == nz,
                               z3.ForAll([k], z3.Implies(z3.And(0 <= k, k < nz), to_z3(v.at(k)) == to_z3(v2.at(k)))))
         except Exception:
